@@ -1,11 +1,14 @@
 (* C13_Extract.v — executable entry point of the skip state machine for the
    correspondence check.  ExtrOcamlBasic only. *)
 Require Import ZArith List.
-Require Import BFL.Ops BFL.C13_Model.
+Require Import BFL.Ops BFL.C13_Model BFL.C13_Life.
 Require Import Extraction ExtrOcamlBasic.
 
 (* observations of a word of operations on a freshly constructed filter *)
 Definition c13_run (k : kind) (have : bool) (ops : list op) : list obs := run_ops k ops (m_init have).
+
+(* the same with moves of the step objects at any position of the word (C13_Life) *)
+Definition c13_run_life (k : kind) (have : bool) (ops : list lop) : list lobs := run_lops k ops (m_init have).
 
 (* The build pastes ocaml/float_ops.ml in front of every driver; that fragment
    mentions the extracted types nat, positive, z and sOps.  This unused
@@ -13,4 +16,4 @@ Definition c13_run (k : kind) (have : bool) (ops : list op) : list obs := run_op
    has no arithmetic). *)
 Definition c13_types_for_float_ops (S : SOps) (n : nat) : T S := sofZ S (Z.of_nat n).
 
-Extraction "C13_model.ml" c13_run c13_types_for_float_ops.
+Extraction "C13_model.ml" c13_run c13_run_life c13_types_for_float_ops.
